@@ -195,25 +195,29 @@ theorem hashBacking_lawful : (hashBacking K V).Lawful where
   iter_nodup := fun b h => h
   len_iter := fun b _ => rfl
 
+theorem vec_get_insert' {V : Type} (b : List (Option V)) (k : Nat) (v : V) (k' : Nat) :
+    VecBacking.get (VecBacking.insert b k v) k' = if k = k' then some v else VecBacking.get b k' := by
+  rw [VecBacking.get_insert]
+  by_cases h : k' = k
+  · subst h; simp
+  · have h' : ¬ k = k' := fun e => h e.symm
+    simp [h, h']
+
+theorem vec_get_remove' {V : Type} (b : List (Option V)) (k k' : Nat) :
+    VecBacking.get (VecBacking.remove b k) k' = if k = k' then none else VecBacking.get b k' := by
+  rw [VecBacking.get_remove]
+  by_cases h : k' = k
+  · subst h; simp
+  · have h' : ¬ k = k' := fun e => h e.symm
+    simp [h, h']
+
 theorem vecBacking_lawful {V : Type} : (vecBacking V).Lawful where
   ok_empty := trivial
   ok_insert := fun _ _ _ _ => trivial
   ok_remove := fun _ _ _ => trivial
   get_empty := fun k => VecBacking.get_nil k
-  get_insert := fun b k v k' => by
-    show VecBacking.get (VecBacking.insert b k v) k' = _
-    rw [VecBacking.get_insert]
-    by_cases h : k' = k
-    · subst h; simp
-    · have h' : ¬ k = k' := fun e => h e.symm
-      simp [h, h']
-  get_remove := fun b k k' => by
-    show VecBacking.get (VecBacking.remove b k) k' = _
-    rw [VecBacking.get_remove]
-    by_cases h : k' = k
-    · subst h; simp
-    · have h' : ¬ k = k' := fun e => h e.symm
-      simp [h, h']
+  get_insert := fun b k v k' => vec_get_insert' b k v k'
+  get_remove := fun b k k' => vec_get_remove' b k k'
   iter_get := fun b k => alookup_iter b k
   iter_nodup := fun b _ => nodupKeys_iter b
   len_iter := fun b _ => VecBacking.len_eq_iter b
